@@ -252,13 +252,24 @@ func family(name string) string {
 
 // families for which Node 20 has no native implementation: the spec is the only oracle
 func specOnlyFamily(name string) bool {
-	f := family(name)
-	return strings.HasPrefix(f, "u_") || strings.HasPrefix(f, "dec_")
+	for _, f := range constructsOf(name) {
+		if strings.HasPrefix(f, "u_") || strings.HasPrefix(f, "dec_") {
+			return true
+		}
+	}
+	return false
 }
 
 // spec_only families whose rules were checked by hand against the proposal text (explicit
 // resource management: DisposeResources / AddDisposableResource / SuppressedError chaining)
-func handVerified(name string) bool { return strings.HasPrefix(family(name), "u_") }
+func handVerified(name string) bool {
+	for _, f := range constructsOf(name) {
+		if strings.HasPrefix(f, "dec_") {
+			return false
+		}
+	}
+	return specOnlyFamily(name)
+}
 
 func Run(r *core.Run) {
 	r.Assume("observations = ordered trace of probe evaluations, property get/set/delete/has traps on probe objects, calls with this-identity and Object.is-precise arguments, plus completion value or error class; error messages and function names are not compared")
@@ -274,7 +285,7 @@ func Run(r *core.Run) {
 
 	var progs []program
 	if r.Thorough() {
-		progs = generate(r, "LoweringProgs.thorough.cfg", 8, 6, r.Seed)
+		progs = generate(r, "LoweringProgs.thorough.cfg", 8, 2, r.Seed)
 	} else {
 		progs = generate(r, "LoweringProgs.quick.cfg", 6, 1, r.Seed)
 	}
